@@ -71,7 +71,7 @@ func init() {
 		st.declare(rb, "(Array Int Int)")
 		ln := st.define("replen", "Int", sx("*", sx("slen", s), n))
 		if lit, ok := v.litContent(s); ok && len(lit) == 1 {
-			st.assume(fmt.Sprintf("(forall ((k!c Int)) (! (=> (and (<= 0 k!c) (< k!c %s)) (= (select %s k!c) %d)) :pattern ((select %s k!c))))", ln, rb, int(lit[0]), rb))
+			st.axiom(fmt.Sprintf("(forall ((k!c Int)) (! (=> (and (<= 0 k!c) (< k!c %s)) (= (select %s k!c) %d)) :pattern ((select %s k!c))))", ln, rb, int(lit[0]), rb))
 		}
 		return []Value{{T: tString, S: fmt.Sprintf("(mkstr %s 0 %s)", rb, ln)}}
 	}}
@@ -127,7 +127,7 @@ func init() {
 		v.c.glob("sindexbyte", "(declare-fun sindexbyte (Str Int) Int)")
 		r := sx("sindexbyte", s, c)
 		st.assume(sAnd(sLe("(- 1)", r), sLt(r, sx("slen", s)), sImp(sGe(r, "0"), sEq(sx("sat", s, r), c))))
-		st.assume(fmt.Sprintf("(forall ((k!i Int)) (! (=> (and (<= 0 k!i) (< k!i (slen %s)) (or (< %s 0) (< k!i %s))) (not (= (select (sbase %s) (+ (soff %s) k!i)) %s))) :pattern ((select (sbase %s) (+ (soff %s) k!i)))))", s, r, r, s, s, c, s, s))
+		st.axiom(fmt.Sprintf("(forall ((k!i Int)) (! (=> (and (<= 0 k!i) (< k!i (slen %s)) (or (< %s 0) (< k!i %s))) (not (= (select (sbase %s) (+ (soff %s) k!i)) %s))) :pattern ((select (sbase %s) (+ (soff %s) k!i)))))", s, r, r, s, s, c, s, s))
 		if c == "10" {
 			v.c.nlFns()
 			st.assume(fmt.Sprintf("(= (nl (sbase %s) (soff %s) (+ (soff %s) (ite (< %s 0) (slen %s) %s))) 0)", s, s, s, r, s, r))
@@ -139,7 +139,7 @@ func init() {
 		v.c.glob("slastindexbyte", "(declare-fun slastindexbyte (Str Int) Int)")
 		r := sx("slastindexbyte", s, c)
 		st.assume(sAnd(sLe("(- 1)", r), sLt(r, sx("slen", s)), sImp(sGe(r, "0"), sEq(sx("sat", s, r), c))))
-		st.assume(fmt.Sprintf("(forall ((k!i Int)) (! (=> (and (< %s k!i) (<= 0 k!i) (< k!i (slen %s))) (not (= (select (sbase %s) (+ (soff %s) k!i)) %s))) :pattern ((select (sbase %s) (+ (soff %s) k!i)))))", r, s, s, s, c, s, s))
+		st.axiom(fmt.Sprintf("(forall ((k!i Int)) (! (=> (and (< %s k!i) (<= 0 k!i) (< k!i (slen %s))) (not (= (select (sbase %s) (+ (soff %s) k!i)) %s))) :pattern ((select (sbase %s) (+ (soff %s) k!i)))))", r, s, s, s, c, s, s))
 		if c == "10" {
 			v.c.nlFns()
 			st.assume(fmt.Sprintf("(= (nl (sbase %s) (+ (soff %s) %s 1) (+ (soff %s) (slen %s))) 0)", s, s, r, s, s))
@@ -299,6 +299,8 @@ func (c *Ctx) utf8Fns() {
 		"(define-fun bd ((s Str) (i Int)) Bool (bd3 (sbase s) (soff s) (+ (soff s) i) (+ (soff s) (slen s))))",
 		"(declare-fun runestr (Int) Str)",
 		"(assert (forall ((r Int)) (! (and (= (slen (runestr r)) (rl r)) (= (soff (runestr r)) 0)) :pattern ((runestr r)))))",
+		// string(r) decodes back to one rune spanning the whole string (U+FFFD for invalid r); ASCII is the byte itself
+		"(assert (forall ((r Int)) (! (and (= (dz3 (sbase (runestr r)) 0 (rl r)) (rl r)) (= (dr3 (sbase (runestr r)) 0 (rl r)) (ite (or (< r 0) (> r 1114111) (surrogate r)) 65533 r)) (=> (and (<= 0 r) (< r 128)) (= (select (sbase (runestr r)) 0) r))) :pattern ((runestr r)))))",
 		// F1..F6 as a predicate instantiated at use sites
 		`(define-fun utf8ok ((b (Array Int Int)) (p Int) (hi Int)) Bool
   (let ((r (dr3 b p hi)) (z (dz3 b p hi)) (c (select b p)))
